@@ -359,6 +359,10 @@ pub mod oxidd_core {
     pub use super::VarNo;
     pub use super::Node;
 }
+/// `Function::as_edge(manager)` / `Function::from_edge(manager, e)`: a function handle is modelled by its root edge
+pub trait AsEdgeExt: Sized { fn as_edge<M>(&self, manager: &M) -> (r: &Self) ensures r == self { self } }
+impl<E: Edge> AsEdgeExt for E {}
+pub fn from_edge<M: Manager>(manager: &M, e: M::Edge) -> (r: M::Edge) ensures r.view() == e.view() { e }
 pub struct EdgeDropGuard<'a, M: Manager> { pub manager: &'a M, pub edge: M::Edge }
 impl<'a, M: Manager> EdgeDropGuard<'a, M> {
     pub fn new(manager: &'a M, edge: M::Edge) -> (r: Self) ensures r.edge.view() == edge.view() { EdgeDropGuard { manager, edge } }
@@ -601,6 +605,69 @@ where M: Manager<Terminal = T> + HasApplyCache<M, MTBDDOp>, M::InnerNode: HasLev
 //@spec
     requires num_laws::<T>(), edge_ok::<M::Edge>(), ok(if_edge.view(), manager.num_levels_spec()), ok(then_edge.view(), manager.num_levels_spec()), ok(else_edge.view(), manager.num_levels_spec()),
     ensures res is Ok ==> ite_post::<T>(if_edge.view(), then_edge.view(), else_edge.view(), manager.num_levels_spec(), res->Ok_0.view()),
+//@end
+// ---------- default methods of PseudoBooleanFunction in oxidd-core/src/function.rs (user-facing API; rule R15) ----------
+//@fn file=crates/oxidd-core/src/function.rs path=trait:PseudoBooleanFunction/fn:add rename=api_add_fn selfcall=Self::> withmgr=this props=C10
+//@header
+fn api_add_fn<M, T>(manager: &M, this: &M::Edge, rhs: &M::Edge) -> (res: AllocResult<M::Edge>)
+where M: Manager<Terminal = T> + HasApplyCache<M, MTBDDOp>, M::InnerNode: HasLevel, T: NumberBase,
+//@spec
+    requires num_laws::<T>(), edge_ok::<M::Edge>(), ok(this.view(), manager.num_levels_spec()), ok(rhs.view(), manager.num_levels_spec()),
+    ensures res is Ok ==> ok(res->Ok_0.view(), manager.num_levels_spec())
+        && forall|env: Env| #[trigger] val_at(res->Ok_0.view(), env) == api_add::<T>(val_at(this.view(), env), val_at(rhs.view(), env)),
+//@end
+//@fn file=crates/oxidd-core/src/function.rs path=trait:PseudoBooleanFunction/fn:sub rename=api_sub_fn selfcall=Self::> withmgr=this props=C10
+//@header
+fn api_sub_fn<M, T>(manager: &M, this: &M::Edge, rhs: &M::Edge) -> (res: AllocResult<M::Edge>)
+where M: Manager<Terminal = T> + HasApplyCache<M, MTBDDOp>, M::InnerNode: HasLevel, T: NumberBase,
+//@spec
+    requires num_laws::<T>(), edge_ok::<M::Edge>(), ok(this.view(), manager.num_levels_spec()), ok(rhs.view(), manager.num_levels_spec()),
+    ensures res is Ok ==> ok(res->Ok_0.view(), manager.num_levels_spec())
+        && forall|env: Env| #[trigger] val_at(res->Ok_0.view(), env) == api_sub::<T>(val_at(this.view(), env), val_at(rhs.view(), env)),
+//@end
+//@fn file=crates/oxidd-core/src/function.rs path=trait:PseudoBooleanFunction/fn:mul rename=api_mul_fn selfcall=Self::> withmgr=this props=C10
+//@header
+fn api_mul_fn<M, T>(manager: &M, this: &M::Edge, rhs: &M::Edge) -> (res: AllocResult<M::Edge>)
+where M: Manager<Terminal = T> + HasApplyCache<M, MTBDDOp>, M::InnerNode: HasLevel, T: NumberBase,
+//@spec
+    requires num_laws::<T>(), edge_ok::<M::Edge>(), ok(this.view(), manager.num_levels_spec()), ok(rhs.view(), manager.num_levels_spec()),
+    ensures res is Ok ==> ok(res->Ok_0.view(), manager.num_levels_spec())
+        && forall|env: Env| #[trigger] val_at(res->Ok_0.view(), env) == api_mul::<T>(val_at(this.view(), env), val_at(rhs.view(), env)),
+//@end
+//@fn file=crates/oxidd-core/src/function.rs path=trait:PseudoBooleanFunction/fn:div rename=api_div_fn selfcall=Self::> withmgr=this props=C10
+//@header
+fn api_div_fn<M, T>(manager: &M, this: &M::Edge, rhs: &M::Edge) -> (res: AllocResult<M::Edge>)
+where M: Manager<Terminal = T> + HasApplyCache<M, MTBDDOp>, M::InnerNode: HasLevel, T: NumberBase,
+//@spec
+    requires num_laws::<T>(), edge_ok::<M::Edge>(), ok(this.view(), manager.num_levels_spec()), ok(rhs.view(), manager.num_levels_spec()),
+    ensures res is Ok ==> ok(res->Ok_0.view(), manager.num_levels_spec())
+        && forall|env: Env| #[trigger] val_at(res->Ok_0.view(), env) == api_div::<T>(val_at(this.view(), env), val_at(rhs.view(), env)),
+//@end
+//@fn file=crates/oxidd-core/src/function.rs path=trait:PseudoBooleanFunction/fn:min rename=api_min_fn selfcall=Self::> withmgr=this props=C10
+//@header
+fn api_min_fn<M, T>(manager: &M, this: &M::Edge, rhs: &M::Edge) -> (res: AllocResult<M::Edge>)
+where M: Manager<Terminal = T> + HasApplyCache<M, MTBDDOp>, M::InnerNode: HasLevel, T: NumberBase,
+//@spec
+    requires num_laws::<T>(), edge_ok::<M::Edge>(), ok(this.view(), manager.num_levels_spec()), ok(rhs.view(), manager.num_levels_spec()),
+    ensures res is Ok ==> ok(res->Ok_0.view(), manager.num_levels_spec())
+        && forall|env: Env| #[trigger] val_at(res->Ok_0.view(), env) == api_min::<T>(val_at(this.view(), env), val_at(rhs.view(), env)),
+//@end
+//@fn file=crates/oxidd-core/src/function.rs path=trait:PseudoBooleanFunction/fn:max rename=api_max_fn selfcall=Self::> withmgr=this props=C10
+//@header
+fn api_max_fn<M, T>(manager: &M, this: &M::Edge, rhs: &M::Edge) -> (res: AllocResult<M::Edge>)
+where M: Manager<Terminal = T> + HasApplyCache<M, MTBDDOp>, M::InnerNode: HasLevel, T: NumberBase,
+//@spec
+    requires num_laws::<T>(), edge_ok::<M::Edge>(), ok(this.view(), manager.num_levels_spec()), ok(rhs.view(), manager.num_levels_spec()),
+    ensures res is Ok ==> ok(res->Ok_0.view(), manager.num_levels_spec())
+        && forall|env: Env| #[trigger] val_at(res->Ok_0.view(), env) == api_max::<T>(val_at(this.view(), env), val_at(rhs.view(), env)),
+//@end
+//@fn file=crates/oxidd-core/src/function.rs path=trait:PseudoBooleanFunction/fn:restrict rename=api_restrict_fn selfcall=Self::> withmgr=this props=C10
+//@header
+fn api_restrict_fn<M, T>(manager: &M, this: &M::Edge, vars: &M::Edge) -> (res: AllocResult<M::Edge>)
+where M: Manager<Terminal = T> + HasApplyCache<M, MTBDDOp>, M::InnerNode: HasLevel, T: NumberBase,
+//@spec
+    requires num_laws::<T>(), edge_ok::<M::Edge>(), ok(this.view(), manager.num_levels_spec()), ok(vars.view(), manager.num_levels_spec()),
+    ensures res is Ok ==> restrict_post::<T>(this.view(), vars.view(), manager.num_levels_spec(), res->Ok_0.view()),
 //@end
 } // mod apply_rec
 } // mod rules
